@@ -10,6 +10,7 @@ Helper lemmas and the inductive invariants are in Proofs/Strand*.lean.  Happens-
 is C04 (`strand_jobs_ordered`), not stated here.
 -/
 import YaclibModel.Proofs.StrandRun
+import YaclibModel.Proofs.StrandTowerN
 import YaclibModel.Extracted.Kernels
 import YaclibModel.Model.Skeletons
 
@@ -294,6 +295,110 @@ theorem drop_may_overlap_call_witness :
   have h2 : s.acts 1 = .busy j10 [] := congrArg (fun x => x.2.1) he
   have h3 : s.acts 0 = .drain [j00] := congrArg (fun x => x.2.2) he
   exact ⟨s, _, h, h1, h2, .aDrop s 0 j00 [] h3⟩
+
+/-! ### strands over strands: towers of any height over any executor that honours the contract
+
+`Exec` (Proofs/StrandTower.lean) is an executor as an open transition system with the client-interface events
+`sub a` / `call a` / `ret a` / `drop a`; `ExecContract E` is the `IExecutor` contract for it (Calls / Drops only
+pending jobs, accepts every Submit and every return, nothing pending when it has nothing left to do).
+`strandExec w L` (Proofs/StrandTowerProd.lean) composes the single-strand model with a lower executor `L`: the
+model's environment steps (`sSched`/`aResub` = Submit of activation a, `aCall a`, `aDropX a`) happen only as the
+events `sub a` / `call a` / `drop a` of `L`, and `L`'s job a returns only after activation a has returned.
+`strandOver L = strandExec ones L` is the strand as an open executor again, `tower base n` iterates it. -/
+
+/-- the most general executor honouring the contract (the environment of the single-strand model) honours it -/
+theorem specBase_honours_contract : ExecContract specBase := specBase_contract
+
+/-- **contract preservation**, in the form that iterates -/
+theorem strand_refines_contract {L : Exec} (hL : ExecContract L) : ExecContract (strandOver L) :=
+  Yaclib.Strand.strand_refines_contract hL
+
+/-- **towers**: n strands on top of each other over any contract-honouring base honour the contract, for every n -/
+theorem tower_satisfies_contract {base : Exec} (hb : ExecContract base) : ∀ n, ExecContract (tower base n) :=
+  Yaclib.Strand.tower_satisfies_contract hb
+
+/-- what C07 says about one strand, as a predicate on its state -/
+structure LevelProps (v : State) : Prop where
+  one_at_a_time : v.running ≤ 1
+  one_activation : ∀ a b, holdsTok (v.acts a) = true → holdsTok (v.acts b) = true → a = b
+  no_bad_deref : ∀ a, v.acts a ≠ .crashed
+  order : v.executed.Sublist v.pushOrder
+  order_exact : v.execDrops = 0 → v.pushOrder = v.executed ++ curRem v ++ v.word.inbox.reverse
+  program_order : v.executed.Pairwise (fun a b => a.sub = b.sub → a.idx < b.idx)
+  call_xor_drop : ExecutorContract v.pushOrder v.executed v.dropped
+  drop_only_if_refused : v.dropped ≠ [] → 0 < v.execDrops
+
+theorem levelProps_of_reachable {w : Workload} {v : State} (h : Reachable w v) : LevelProps v :=
+  ⟨jobs_never_overlap h, (at_most_one_activation h).1, no_mark_deref h, executed_sublist_push_order h,
+   executed_eq_push_order_nodrop h, (fifo_per_submitter h).1, refines_executor_contract h,
+   dropped_only_if_executor_dropped h⟩
+
+/-- **every level of a tower has the strand's guarantees**: in every reachable state of clients with any workload
+    `w` on a tower of any height over any base executor (no assumption on the base is needed for safety), the top
+    strand and every strand below it never run two of their jobs at once, run them in the order their pushes took
+    effect, Call xor Drop each at most once and only after its submission, never dereference an empty batch.
+    (Each level's state is a reachable state of the single-strand model — the projection the trace validator checks
+    for the traced level of the harness' tower scenarios.) -/
+theorem tower_level_properties {w : Workload} {base : Exec} {n : Nat} {s : (towerTop w base n).σ}
+    (hr : (towerTop w base n).Reach s) :
+    (Reachable w s.1 ∧ LevelProps s.1) ∧ ∀ v ∈ levels base n s.2.1, Reachable ones v ∧ LevelProps v := by
+  obtain ⟨h1, h2⟩ := top_levels_reachable hr
+  exact ⟨⟨h1, levelProps_of_reachable h1⟩, fun v hv => ⟨h2 v hv, levelProps_of_reachable (h2 v hv)⟩⟩
+
+/-- **nothing is lost in a tower** (safety form of "every job is eventually Called or Dropped, at every level"):
+    over a contract-honouring base, a state of the whole system in which nothing can move is one in which every
+    client has returned from its last Submit, every job of the workload was Called or Dropped by the top strand, and
+    every level is idle (word = marker, all activations returned, nothing running, every job handed to it done). -/
+theorem tower_quiescent_all_done {w : Workload} {base : Exec} (hb : ExecContract base) {n : Nat}
+    {s : (towerTop w base n).σ} (hr : (towerTop w base n).Reach s) (hq : ∀ l s', ¬ (towerTop w base n).step s l s') :
+    LevelDone s.1 ∧ (∀ i k, k < jobsOf w i → (⟨i, k⟩ : JobId) ∈ s.1.executed ∨ (⟨i, k⟩ : JobId) ∈ s.1.dropped) ∧
+    ∀ v ∈ levels base n s.2.1, LevelDone v := by
+  obtain ⟨h1, h2, h3⟩ := top_quiescent hb hr hq
+  exact ⟨h1, fun i k hk => h1.all_done i k (by rw [h2 i]; exact hk), h3⟩
+
+/-- the same for an open tower (its clients hand over each job with its own Submit): when only the clients could
+    move and no client body is running, every level is idle and done -/
+theorem tower_levels_quiescent {base : Exec} (hb : ExecContract base) (n : Nat) {s : (tower base n).σ} {p : Prot}
+    (hr : (tower base n).Run s p) (hq : (tower base n).Quiet s) (hnc : ∀ a, p a ≠ .calling) :
+    ∀ v ∈ levels base n s, LevelDone v :=
+  Yaclib.Strand.tower_levels_quiescent hb n hr hq hnc
+
+/-- non-vacuity: a three-level tower over the most general base, driven through `next` at every level: the client
+    submits job 0 to level 2; each level pushes, schedules itself on the level below (the Submit of its activation 0
+    there), the base Calls level 0's activation, whose batch runner Calls level 1's, whose batch runner Calls level
+    2's, which runs the job; the activations return innermost first and every level goes back to idle. -/
+theorem tower3_run_witness : ∃ (s : (tower specBase 3).σ) (p : Prot), (tower specBase 3).Run s p ∧ p 0 = .finished ∧
+    (levels specBase 3 s).map (·.executed) = [[j00], [j00], [j00]] ∧
+    (levels specBase 3 s).map (·.word) = [.mark, .mark, .mark] ∧
+    (levels specBase 3 s).map (·.nacts) = [1, 1, 1] := by
+  have h0 : (tower specBase 3).Run (tower specBase 3).init protInit := .init
+  have h1 := Exec.Run.inp h0 (PStep.up (viaNext (.sLoad 0 .mark) rfl) rfl) rfl rfl rfl
+  have h2 := Exec.Run.tau h1 (PStep.up (viaNext (.sCasOk 0) rfl) rfl) rfl
+  have h3 := Exec.Run.tau h2 (PStep.sync (viaNext (.sSched 0) rfl) rfl (PStep.up (viaNext (.sLoad 0 .mark) rfl) rfl) rfl) rfl
+  have h4 := Exec.Run.tau h3 (PStep.low (PStep.up (viaNext (.sCasOk 0) rfl) rfl) rfl) rfl
+  have h5 := Exec.Run.tau h4 (PStep.low (PStep.sync (viaNext (.sSched 0) rfl) rfl
+    (PStep.up (viaNext (.sLoad 0 .mark) rfl) rfl) rfl) rfl) rfl
+  have h6 := Exec.Run.tau h5 (PStep.low (PStep.low (PStep.up (viaNext (.sCasOk 0) rfl) rfl) rfl) rfl) rfl
+  have h7 := Exec.Run.tau h6 (PStep.low (PStep.low (PStep.sync (viaNext (.sSched 0) rfl) rfl
+    (specBase_step _ (.sub 0) (by rfl)) rfl) rfl) rfl) rfl
+  have h8 := Exec.Run.tau h7 (PStep.low (PStep.low (PStep.sync (viaNext (.aCall 0) rfl) rfl
+    (specBase_step _ (.call 0) (by rfl)) rfl) rfl) rfl) rfl
+  have h9 := Exec.Run.tau h8 (PStep.low (PStep.sync (viaNext (.aCall 0) rfl) rfl
+    (PStep.up (viaNext (.aBegin 0 j00) rfl) rfl) rfl) rfl) rfl
+  have h10 := Exec.Run.tau h9 (PStep.sync (viaNext (.aCall 0) rfl) rfl (PStep.up (viaNext (.aBegin 0 j00) rfl) rfl) rfl) rfl
+  have h11 := Exec.Run.out h10 (PStep.up (viaNext (.aBegin 0 j00) rfl) rfl) rfl rfl
+  have h12 := Exec.Run.inp h11 (PStep.up (viaNext (.aEnd 0 j00) rfl) rfl) rfl rfl rfl
+  have h13 := Exec.Run.tau h12 (PStep.up (viaNext (.aLoad 0 true) rfl) rfl) rfl
+  have h14 := Exec.Run.tau h13 (PStep.up (viaNext (.aCasOk 0) rfl) rfl) rfl
+  have h15 := Exec.Run.tau h14 (PStep.lret (PStep.up (viaNext (.aEnd 0 j00) rfl) rfl) rfl rfl (Or.inr rfl)) rfl
+  have h16 := Exec.Run.tau h15 (PStep.low (PStep.up (viaNext (.aLoad 0 true) rfl) rfl) rfl) rfl
+  have h17 := Exec.Run.tau h16 (PStep.low (PStep.up (viaNext (.aCasOk 0) rfl) rfl) rfl) rfl
+  have h18 := Exec.Run.tau h17 (PStep.low (PStep.lret (PStep.up (viaNext (.aEnd 0 j00) rfl) rfl) rfl rfl (Or.inr rfl)) rfl) rfl
+  have h19 := Exec.Run.tau h18 (PStep.low (PStep.low (PStep.up (viaNext (.aLoad 0 true) rfl) rfl) rfl) rfl) rfl
+  have h20 := Exec.Run.tau h19 (PStep.low (PStep.low (PStep.up (viaNext (.aCasOk 0) rfl) rfl) rfl) rfl) rfl
+  have h21 := Exec.Run.tau h20 (PStep.low (PStep.low (PStep.lret (specBase_step _ (.ret 0) (by rfl)) rfl rfl
+    (Or.inr rfl)) rfl) rfl) rfl
+  exact ⟨_, _, h21, rfl, rfl, rfl, rfl⟩
 
 end Yaclib.Props.C07
 
